@@ -37,11 +37,14 @@ fn get_server_values_impl(socket: &mut UdpSocket) -> GDResult<HashMap<String, St
 
     let mut received_query_id: Option<usize> = None;
     let mut parts: Vec<usize> = Vec::new();
-    let mut is_finished = false;
+    // The number of the part that carried `final`: as it is the last one, this is also the
+    // number of parts that make the response (they are numbered from 1).
+    let mut final_part: Option<usize> = None;
 
     let mut server_values = HashMap::new();
 
-    while !is_finished {
+    // Parts can arrive in any order, all of them are needed.
+    while final_part.map_or(true, |last| parts.len() < last) {
         let data = socket.receive(None)?;
         let mut bufferer = Buffer::<LittleEndian>::new(&data);
 
@@ -64,7 +67,7 @@ fn get_server_values_impl(socket: &mut UdpSocket) -> GDResult<HashMap<String, St
             server_values.insert(key, value);
         }
 
-        is_finished = server_values.remove("final").is_some();
+        let is_final = server_values.remove("final").is_some();
 
         let query_data = server_values.get("queryid");
 
@@ -93,6 +96,10 @@ fn get_server_values_impl(socket: &mut UdpSocket) -> GDResult<HashMap<String, St
         match parts.contains(&part) {
             true => Err(GDErrorKind::PacketBad)?,
             false => parts.push(part),
+        }
+
+        if is_final {
+            final_part = Some(part);
         }
     }
 
